@@ -9,7 +9,7 @@ import time
 from .assemble import assemble, VERIF, Unsupported
 from .rscan import AnchorLost
 
-WORK = os.path.join(VERIF, ".work")
+from .assemble import WORKDIR as WORK
 VERUS_VERSION = None
 
 FAIL_MSGS = (
